@@ -479,6 +479,12 @@ func (e *SpecEnv) evalCall(x *ast.CallExpr) Val {
 			return intV(sx("ones", arg(0).T, e.run.coerce(e.st, arg(1), idxSort, name), arg(2).T, arg(3).T))
 		}
 		return intV(sx("onesK", arg(0).T, e.run.coerce(e.st, arg(1), idxSort, name), arg(2).T, arg(3).T, arg(4).T))
+	case "plusFn":
+		// a function value that adds: the witness for the "for every adding function" definitions (tsumDef)
+		e.run.needFn()
+		w.decls.declare("app_Real_Real", "(declare-fun app_Real_Real (Fn Real Real) Real)")
+		e.run.needNamed("plusFn", "(declare-fun plusFn () Fn)\n(assert (forall ((a Real) (b Real)) (! (= (app_Real_Real plusFn a b) (+ a b)) :pattern ((app_Real_Real plusFn a b)))))")
+		return Val{K: KRef, T: "plusFn", Sort: "Fn"}
 	case "dataMM":
 		// dataMM(a, b, i, j, k): sum over q < k of a[i][q] * b[q][j] for two matrices of float64 leaves
 		e.run.needData()
